@@ -1121,7 +1121,7 @@ impl Prop for C09 {
         "fault_enumeration"
     }
     fn rule(&self) -> String {
-        "Seeded programs of 2-9 commands; each command is one of 12 kinds (regular built-in, function, brace group, if, for, subshell, eval, command, not-found, redirection-only, exec, `:`) with 0-4 redirections over all operators (< > >| >> <> <&n >&n <&- >&- here-document), target descriptors 0-10, operands existing/missing/missing-directory//dev/null, sources open/closed/wrong-mode/shell-internal, noclobber toggled. A POSIX redirection-table model (descriptions with shared offsets, append, truncation) is stepped alongside and predicts the table seen by the command, I/O results through the redirected descriptors, the persistent table, statuses and final files. Faults ENUMERATED per program: the fault-free run counts the K descriptor allocations (all processes) and the program is re-run K times failing exactly the k-th allocation with EMFILE; plus runs under RLIMIT_NOFILE soft limits 3..16 and seeded schedules with preemption. Under faults only the non-relaxable invariants are checked (table restored after every non-exec command, no descriptor >= 10 left after exec, >=10 <=> close-on-exec, termination). A run is distinct non-trivial if it fired a fault or had >= 2 processes, keyed by (script hash, fault position/limit, schedule hash).".into()
+        "Seeded programs of 2-9 commands; each command is one of 12 kinds (regular built-in, function, brace group, if, for, subshell, eval, command, not-found, redirection-only, exec, `:`) with 0-4 redirections over all operators (< > >| >> <> <&n >&n <&- >&- here-document), target descriptors 0-10, operands existing/missing/missing-directory//dev/null, sources open/closed/wrong-mode/shell-internal, noclobber toggled. A POSIX redirection-table model (descriptions with shared offsets, append, truncation) is stepped alongside and predicts the table seen by the command, I/O results through the redirected descriptors, the persistent table, statuses and final files. Faults ENUMERATED per program: the fault-free run counts the K descriptor allocations (all processes) and the program is re-run K times failing exactly the k-th allocation with EMFILE; plus runs under RLIMIT_NOFILE soft limits 3..16 and seeded schedules with preemption. Under faults only the non-relaxable invariants are checked (table restored after every non-exec command, no descriptor >= 10 left after exec, >=10 <=> close-on-exec, termination). A run is distinct non-trivial if it fired a fault or had >= 2 processes, keyed by (script hash, fault position/limit, schedule hash). Every position at which a write to a regular file can fail with ENOSPC is enumerated as well (up to 12/40 per program); `:` commands carry pathname expansions.".into()
     }
     fn assumptions(&self) -> Vec<String> {
         vec![
